@@ -23,6 +23,16 @@ inductive EncChoice where
   | custom (enc : List Nat)
 deriving Repr
 
+/-- the choice `Write` makes: nothing is written for the Standard encoding (`len(f.Encoding) == 0 ||
+isStandardEncoding(...)`), `Encoding = 1` for the Expert encoding, otherwise the vector is encoded -/
+def encChoiceOf (T : Tables) (enc : Option (List Nat)) (names : List String) : EncChoice :=
+  match enc with
+  | none => .standard
+  | some e =>
+    if e.length = 0 ∨ e = encodingByName T.standardEncRev names then .standard
+    else if e = encodingByName T.expertEnc names then .expert
+    else .custom e
+
 structure PrivIn where
   blueValues : List Int
   otherBlues : List Int
@@ -161,6 +171,12 @@ def mkSecs (f : FontIn) : Secs :=
   { enc := some 5, charsets := 6, fdSelect := some 7, charStrings := 8, fontDictIndex := 9, priv0 := 10,
     subrs := 10 + np, num := 11 + np }
 
+/-- does `cffIndex.encode` return (rather than panic)? -/
+def idxOk (blobs : List Bytes) : Bool :=
+  match indexEncode blobs with
+  | .ok _ => true
+  | _ => false
+
 /-- the part of `Write` before the loop; errors of `encodeEncoding`/`encodeCharset` are returned -/
 def prepare (std : List String) (f : FontIn) : Outcome (Fixed × Secs) :=
   let numGlyphs := f.charStrings.length
@@ -205,6 +221,8 @@ def prepare (std : List String) (f : FontIn) : Outcome (Fixed × Secs) :=
     | .err x => .err x
     | .panic s => .panic s
     | .ok cs =>
+      if !(idxOk [f.fontName] && idxOk f.charStrings) then .panic "cff: too much data for INDEX"
+      else
       .ok ({ nameIndex := outOk (indexEncode [f.fontName]), encoding := encB, charsets := cs,
              fdSelect := if f.ros.isSome then some (fdEncode f.fds) else none,
              charStrings := outOk (indexEncode f.charStrings), custom0 := custom2, topBase := top2,
@@ -242,6 +260,30 @@ def mkBlobs (std : List String) (isCID : Bool) (fx : Fixed) (sc : Secs) (offs : 
   [header, fx.nameIndex, outOk (indexEncode [topData]), stringIndex, [0, 0],
     fx.encoding.getD [], fx.charsets, fx.fdSelect.getD [], fx.charStrings, fontDictIndex] ++ privBlobs ++ [[0, 0]]
 
+/-- do the three INDEX encoders called inside the loop body return (rather than panic)? -/
+def mkBlobsFits (std : List String) (isCID : Bool) (fx : Fixed) (sc : Secs) (offs : List Int) : Bool :=
+  let off (i : Nat) : Int := offs.getD i 0
+  let privBlobs : List Bytes := (List.range fx.privBase.length).map fun i =>
+    (encodeDictS std [] ((fx.privBase.getD i []) ++ [(19, [.int (off sc.subrs - off (sc.priv0 + i))])])).1
+  let pdDesc (i : Nat) : List Operand := [.int ((privBlobs.getD i []).length), .int (off (sc.priv0 + i))]
+  let fdOk : Bool :=
+    if isCID then idxOk ((List.range fx.privBase.length).map fun i =>
+      (encodeDictS std [] ((fx.fdBase.getD i []) ++ [(18, pdDesc i)])).1)
+    else true
+  let top := fx.topBase ++
+    (if isCID then [] else
+      (if fx.privBase.length > 0 then [(18, pdDesc (fx.privBase.length - 1))] else [])) ++
+    [(15, [.int (off sc.charsets)])] ++
+    (match fx.encoding with
+     | some _ => [(16, [.int (off 5)])]
+     | none => []) ++
+    [(17, [.int (off sc.charStrings)])] ++
+    (match fx.fdSelect with
+     | some _ => [(3109, [.int (off 7)]), (3108, [.int (off sc.fontDictIndex)])]
+     | none => [])
+  let e := encodeDictS std fx.custom0 top
+  fdOk && idxOk [e.1] && idxOk (e.2.map strToBlob)
+
 /-- `done`: the first `numSections` entries agree -/
 def sameOffs (n : Nat) (a b : List Int) : Bool := a.take n == b.take n
 
@@ -267,7 +309,9 @@ def writeFont (std : List String) (f : FontIn) : Outcome (Bytes × Nat) :=
   | .panic s => .panic s
   | .ok (fx, sc) =>
     match writeLoop (mkBlobs std f.ros.isSome fx sc) sc.num 64 (cumsum (initialBlobs fx)) 0 with
-    | some (blobs, _, k) => .ok (blobs.flatten, k)
+    | some (blobs, offs, k) =>
+      if mkBlobsFits std f.ros.isSome fx sc offs then .ok (blobs.flatten, k)
+      else .panic "cff: too much data for INDEX"
     | none => .err "fuel"
 
 end SfntV.Cff
